@@ -6,6 +6,7 @@ import AlphaG.Driver.C05
 import AlphaG.Driver.C06
 import AlphaG.Driver.C07
 import AlphaG.Driver.C08
+import AlphaG.Driver.C09b
 import AlphaG.Driver.C10
 import AlphaG.Driver.C13
 import AlphaG.Driver.C13b
@@ -29,6 +30,7 @@ def main : IO Unit := Driver.run [
   AlphaG.Driver.C06.handle,
   AlphaG.Driver.C07.handle,
   AlphaG.Driver.C08.handle,
+  AlphaG.Driver.C09b.handle,
   AlphaG.Driver.C10.handle,
   AlphaG.Driver.C13.handle,
   AlphaG.Driver.C13b.handle,
